@@ -114,3 +114,14 @@ PROPS["C02"] = dict(
     rule="one case per (family, index); non-trivial when the loader accepted the string or the instrument was installed and the whole play matrix / render completed",
     assumptions=E2_ASSUME + ["null chips for the play matrix (the library layer computes registers; cores are exercised by the render family)"],
 )
+
+PROPS["C01"] = dict(
+    level="exploration", engine="enum", title="untrusted music data never crashes, corrupts memory or hangs the player",
+    technique="exhaustive enumeration of parser-distinguishing byte-alphabet strings, 1-deviation neighbourhoods of well-formed seeds of 9 formats, boundary values of every header field, extreme variable-length quantities and scaling patterns through opn2_openData on exact-size heap blocks under ASan, with canonical and all depth-2 follow-up call sequences under CPU and heap budgets",
+    level_text="Every member of the listed families is loaded through the public API (wide seam) on a block of exactly its size and, when accepted, driven through play/tick/seek/rewind/song-select/metadata/loop/track-option calls. "
+               "Oracle: AddressSanitizer with annotated vectors and strict bounds, fatal signals, uncaught exceptions, CPU-time budget per case, peak-heap budget linear in the input size, 0/-1 return with a non-empty error text.",
+    level_note="strings outside the families (longer than the alphabet bound, more than one deviation from a seed in the quick tier, three coordinated fields) are not covered; the heap budget is 24 MiB + 4 KiB per input byte; real emulator cores are replaced by null chips",
+    legs=[Leg("loader", ["models/c01_music.cpp"], "asan", [], [], timeout_quick=2400, timeout_thorough=14000)],
+    rule="one case per (family, index); duplicates produced by a mutation that leaves the seed unchanged are skipped; non-trivial when opn2_openData accepted the input and the follow-up calls ran on it",
+    assumptions=E2_ASSUME + ["null chips (chip factory hook)", "follow-up alphabet: 19 calls (play 64/4096/long, tick, 5 seeks, rewind, 4 song selections, tell/length, metadata incl. out-of-range indices, loop on, track options, channel off, atEnd)"],
+)
